@@ -23,6 +23,7 @@ RULE = (
     "least one off-node evaluation point, or a constant-property table (where the result must vanish). Distinct = "
     "hash of the case record. Reference densities are 1e-4..1e2, or exactly 0 (int or float) for one component left out of the "
     "mass balance (water in one case in six, oil or gas in one in twelve each)."
+    " One pressure-dependent case in three also passes cubic-spline callables of the same table to the functions and compares with the documented sums evaluated with those callables."
 )
 ASSUMPTIONS = [
     "stored mass per unit volume: phi [rho_o (Rv Sg/Bg + So/Bo) + rho_g (Rs So/Bo + Sg/Bg) + rho_w Sw/Bw] (docs/background.md; the `S_g/b_o` in the alpha section of the document is a typo against its own mass-balance equations)",
@@ -91,6 +92,37 @@ def check_case(case) -> Result:
     ps, on_node, so = np.array(ps), np.array(on_node), np.array(so)
     pvt = mp.library_pvt_dict(tab, rho)
     kr = mp.library_kr_dict(kr_table)
+    # ---- the documented sums with the CALLER'S property functions -------------------------------------------
+    # the functions take any callables of pressure (their docstrings say "function of pressure"): with smooth spline
+    # interpolants of the same table (interp1d kind="cubic", extrapolating) the results must be the documented storage
+    # difference and mobility sum evaluated with those very callables, not with a linear reading of their nodes
+    if fam != "constant" and len(tab["pressure"]) >= 5 and len(ps) % 3 == 0:
+        from scipy.interpolate import interp1d as _i1d
+
+        f = {k: _i1d(tab["pressure"], tab[k], kind="cubic", fill_value="extrapolate") for k in mp.PVT_COLS}
+        pvt_c = dict(f, **rho)
+
+        def stor(q):
+            sg = 1 - so - sw
+            return phi * (rho["rho_o0"] * (f["Rv"](q) * sg / f["Bg"](q) + so / f["Bo"](q)) + rho["rho_g0"] * (f["Rs"](q) * so / f["Bo"](q) + sg / f["Bg"](q)) + rho["rho_w0"] * sw / f["Bw"](q))
+
+        def parts_abs(q):
+            sg = 1 - so - sw
+            return phi * (abs(rho["rho_o0"]) * (np.abs(f["Rv"](q) * sg / f["Bg"](q)) + np.abs(so / f["Bo"](q))) + abs(rho["rho_g0"]) * (np.abs(f["Rs"](q) * so / f["Bo"](q)) + np.abs(sg / f["Bg"](q))) + abs(rho["rho_w0"]) * np.abs(sw / f["Bw"](q)))
+
+        positive = all(np.all(np.asarray(f[k](np.concatenate([ps - 0.5, ps + 0.5])), float) > 0) for k in ("Bo", "Bg", "Bw", "mu_o", "mu_g", "mu_w"))
+        if positive:  # a spline may overshoot below zero between widely spaced rows: such callables are not fluid properties
+            c_spl = np.asarray(lib("compressibility_combined_func(spline callables)", compressibility_combined_func, ps, so, phi, sw, pvt_c), float)
+            c05 = (stor(ps + 0.5) - stor(ps - 0.5)) / 1.0
+            c025 = (stor(ps + 0.25) - stor(ps - 0.25)) / 0.5
+            tol_c = 2.0 * np.abs(c05 - c025) + 1e-9 * parts_abs(ps)
+            k = int(np.argmax(np.abs(c_spl - c05) / np.maximum(tol_c, 1e-300)))
+            res.check("C16/storage-derivative-with-the-callers-functions", float(np.abs(c_spl - c05)[k]), float(tol_c[k]), f"spline property functions: library c={c_spl[k]!r} vs +-0.5 psi difference of the documented storage with the same callables {c05[k]!r} at p={ps[k]!r}, So={so[k]!r};")
+            kro, krg, krw = kr["kro"](so), kr["krg"](so), kr["krw"](so)
+            lam_want = rho["rho_o0"] * (f["Rv"](ps) * krg / (f["mu_g"](ps) * f["Bg"](ps)) + kro / (f["mu_o"](ps) * f["Bo"](ps))) + rho["rho_g0"] * (krg / (f["mu_g"](ps) * f["Bg"](ps)) + f["Rs"](ps) * kro / (f["mu_o"](ps) * f["Bo"](ps))) + rho["rho_w0"] * krw / (f["mu_w"](ps) * f["Bw"](ps))
+            lam_spl = np.asarray(lib("lambda_combined_func(spline callables)", lambda_combined_func, ps, so, pvt_c, kr), float)
+            res.check("C16/mobility-with-the-callers-functions", float(np.max(np.abs(lam_spl - lam_want))), 1e-11 * float(np.max(np.abs(lam_want))) + 1e-300, "spline property functions: lambda_combined_func vs the documented sum with the same callables;")
+            res.labels["spline_callables"] = True
     # ---- compressibility ------------------------------------------------------------------------------
     c_lib = np.asarray(lib("compressibility_combined_func", compressibility_combined_func, ps, so, phi, sw, pvt), float)
     if c_lib.shape != ps.shape or not np.all(np.isfinite(c_lib)):
